@@ -1,5 +1,6 @@
 import MM.Props.Exhaustive
 import MM.Props.SearchTie
+import MM.Props.ScoreTie
 #print axioms MM.Search.C03_sound
 #print axioms MM.Search.C03_complete
 #print axioms MM.Search.C03_nodup
@@ -10,3 +11,6 @@ import MM.Props.SearchTie
 #print axioms MM.Search.tie_share
 #print axioms MM.Search.tie_budget_screen
 #print axioms MM.Search.tie_volume
+#print axioms MM.Search.tie_score_fields
+#print axioms MM.Search.tie_score_exprs
+#print axioms MM.Search.tie_score_order
